@@ -6,10 +6,21 @@ all-empirical, mixed with a BEP transition state) plus the full product of the c
 coordinates at every centre.  Every configuration is a real Reaction / ChemkinReaction /
 SurfaceReaction built from fresh species; the oracle is sum(nu_i X_i) (product of powers
 for q) with X_i from the species' own getter under the documented keyword routing.
+
+Two further families (added after the seeded changes of wave 2):
+
+* vector conditions - T given as a 1-D numpy array (globally and / or inside a species block) on
+  reactions whose species document array T (Nasa, Shomate, Nasa9, BEP); the oracle is the
+  element-wise *scalar* evaluation of the same linear reference (one scalar reference per
+  element, stacked);
+* histories - several calls on the same reaction object(s) with one conditions dictionary that
+  the caller keeps and edits between calls (T / P / block entries), reactions made by
+  __init__ / from_string / deepcopy / to_dict+from_dict, coefficients edited after creation,
+  two reactions sharing their species objects; the oracle of every call is the linear
+  reference at the conditions of *that* call, computed on a separately built twin.
 """
 import copy
 import itertools
-import math
 
 import numpy as np
 
@@ -18,37 +29,89 @@ from pmc.ref import rxn as R
 
 ID = 'C08'
 RULE = ('configurations = (reaction class, reactant multiset, product multiset, transition state, '
-        'stoichiometry offset, T, P, include_ZPE, per-species keyword blocks); every configuration within '
+        'stoichiometry offset, T, P, include_ZPE, per-species keyword blocks, number type); every configuration within '
         '2 deviations of three centre reactions, plus the full product of the condition coordinates (class, '
-        'transition state, T, P, include_ZPE, blocks; thorough: and the coefficient offset) at each centre; configurations are de-duplicated on the concrete reaction + '
+        'transition state, T, P, include_ZPE, blocks; thorough: and the coefficient offset) at each centre; '
+        'vector configurations = (class, empirical reactant / product multiset, transition state, offset, vector '
+        'shape, where the vector is placed, P) within 2 deviations of two empirical centres plus the full product '
+        'class x transition state x shape x placement x P; histories = (reaction, block pattern, (T,P) sequence, '
+        'block edit, dictionary reuse, construction route, coefficient edit, second reaction on the same species) '
+        'within 2 deviations of six centre histories; configurations are de-duplicated on the concrete reaction + '
         'keyword dictionary; a configuration is non-trivial when it has a keyword block, more than one '
-        'species on a side or two transition-state species')
+        'species on a side, two transition-state species, a vector condition or more than one call')
 ASSUMPTIONS = ['species come from a pool of 7 side species + 6 transition-state species (one per model class); '
                'coefficients from the dyadic lattice {0.25,0.5,1,1.5,2,3,4}: every quantity is linear in the '
                'coefficients, so exactness on this lattice carries to all coefficients up to rounding',
                'a getter is exercised for a state only when every species of that state implements it itself '
                '(Nasa/Shomate/Nasa9: Cp, H, S, G; BEP: no electronic energy)',
                'ChemkinReaction reads species.phase at construction: configurations whose constructor refuses a StatMech species are recorded as refused',
-               'clamped ChemkinReaction/SurfaceReaction get_H(oRT)_act / get_G(oRT)_act belong to C09']
-EXPLANATION = ('deviation-bounded exhaustive enumeration of reaction configurations executed on the real classes; '
-               'linear reference model from the species getters')
+               'clamped ChemkinReaction/SurfaceReaction get_H(oRT)_act / get_G(oRT)_act belong to C09',
+               'vector conditions: 1-D numpy arrays (float and integer dtype, length 1-5, unsorted / repeated '
+               'included) for T only, and only on reactions whose species document "float or (N,) ndarray" '
+               '(Nasa, Shomate, Nasa9; BEP through the reaction); StatMech species take scalar T; Python '
+               'lists / tuples are not documented inputs and are not enumerated',
+               'integer-typed scalars (Python int T, int coefficients) are compared with the reference at the '
+               'equal float value',
+               'histories: up to 3 condition sets per history, each evaluated on up to 2 reactions; getters '
+               'CpoR, HoRT, GoRT (with Keq) and q']
+EXPLANATION = ('deviation-bounded exhaustive enumeration of reaction configurations, vector-condition configurations '
+               'and call histories executed on the real classes; linear reference model from the species getters '
+               '(element-wise scalar evaluation for vector conditions)')
 
 TEMPS = [300.0, 850.0]
 PRESS = [None, 0.2]
-ZPE = [None, True]
+ZPE = [None, True, False]       # the full product uses the first two; explicit False is a deviation
 CLASSES = ['Reaction', 'ChemkinReaction', 'SurfaceReaction']
 TS_Q = [None, ['TSM'], ['TSN'], ['BEP'], ['TSM', 'TS2'], ['BEPE'], ['BEPR']]
 TS_T = TS_Q + [['BEP', 'TS2'], ['TSN', 'TSM']]
-NBLK = 7
+NBLK = 8                        # the full product uses the first seven
+NBLK_PRODUCT = 7
+NUM = ['float', 'int']
 DIM_UNITS = {'CvoR': ('Cv', 'J/mol/K', False), 'CpoR': ('Cp', 'J/mol/K', False),
              'SoR': ('S', 'J/mol/K', False), 'UoRT': ('U', 'kJ/mol', True), 'HoRT': ('H', 'kJ/mol', True),
              'FoRT': ('F', 'kJ/mol', True), 'GoRT': ('G', 'kJ/mol', True), 'EoRT': ('E', 'kJ/mol', True)}
+
+# ---- vector family
+VEC = '__vec__'
+EMP_POOL = ['XSG', 'NS', 'SH', 'N9']
+VEC_TS = [None, ['TSN'], ['BEP'], ['BEPR']]
+VEC_SHAPES = [([300.0, 850.0], 'float'),                 # both sides of T_mid
+              ([850.0, 300.0, 850.0], 'float'),          # unsorted, descending start, repeated
+              ([300, 850], 'int'),                       # integer dtype
+              ([300.0], 'float'),                        # length 1
+              ([850.0, 850.0], 'float'),                 # all equal
+              ([250.0, 400.0, 700.0, 1200.0, 3000.0], 'float'),
+              ([850, 300, 300], 'int')]                  # integer dtype, descending, repeated
+NVPAT = 6
+SCRIBBLE = -777.0
+
+# ---- history family
+HIST_RXN = [
+    dict(cls='Reaction', R=['SG'], P=['SA'], TS=['TSM'], st=2),
+    dict(cls='ChemkinReaction', R=['XSG'], P=['NS'], TS=['TSN'], st=3),
+    dict(cls='SurfaceReaction', R=['SG', 'NS'], P=['CM'], TS=['BEP'], st=4),
+    dict(cls='Reaction', R=['XSG', 'SG'], P=['SH'], TS=['TSM', 'TS2'], st=5),
+    dict(cls='Reaction', R=['SH'], P=['XSG', 'NS'], TS=['BEPR'], st=6),
+    dict(cls='SurfaceReaction', R=['NS', 'SA'], P=['SH'], TS=['TSN'], st=7),
+]
+HIST_TP = [(300.0, None), (850.0, None), (300.0, 0.2), (850.0, 0.2)]
+HIST_BLK = [1, 0, 2, 4, 6]
+HIST_REUSE = ['shared', 'fresh']
+HIST_ROUTE = ['init', 'from_string', 'deepcopy', 'dict']
+HIST_QUANT = ['q', 'CpoR', 'HoRT', 'GoRT']
 
 PLANNED_TAGS = (['cls:' + c for c in CLASSES] +
                 ['ts:none', 'ts:explicit', 'ts:bep', 'ts:two', 'blk:none', 'blk:reactant', 'blk:product',
                  'blk:ts', 'blk:absent', 'blk:several', 'dir:rev', 'dir:act', 'side:repeated-species',
                  'side:species-on-both-sides', 'P:explicit', 'zpe:explicit', 'stoich:fractional',
-                 'refused:chemkin-needs-phase', 'keq:finite'] +
+                 'refused:chemkin-needs-phase', 'keq:finite',
+                 'zpe:explicit-false', 'blk:option-through-block', 'num:int-T', 'num:int-coefficient',
+                 'vec:global-T', 'vec:block-T', 'vec:global-and-block', 'vec:absent-block', 'vec:int-dtype',
+                 'vec:length-1', 'vec:unsorted-repeated', 'vec:result-scribbled', 'vec:bep',
+                 'hist:shared-blocks', 'hist:fresh-dicts', 'hist:T-changed', 'hist:P-changed',
+                 'hist:block-edited-in-place', 'hist:first-conditions-again', 'hist:coefficients-edited',
+                 'hist:two-reactions-share-species'] +
+                ['hist:route:' + r for r in HIST_ROUTE] +
                 ['getter:' + q for q in R.QUANT])
 
 
@@ -98,61 +161,150 @@ def _coords(tier, centre):
     cls = [CLASSES[centre['cls']]] + [c for i, c in enumerate(CLASSES) if i != centre['cls']]
     # (name, options) - option 0 is the centre's value
     return [('cls', cls), ('R', rs), ('P', ps), ('TS', tso), ('st', list(range(2, 9))),
-            ('T', TEMPS), ('Pr', PRESS), ('zpe', ZPE), ('blk', list(range(NBLK)))]
+            ('T', TEMPS), ('Pr', PRESS), ('zpe', ZPE), ('blk', list(range(NBLK))), ('num', NUM)]
+
+
+PRODUCT_OPTS = {'zpe': ZPE[:2], 'blk': list(range(NBLK_PRODUCT))}
+
+
+def _deviations(coords, level, add, make):
+    """The centre (option 0 of every coordinate) and everything within `level` deviations of it."""
+    names = [n for n, _ in coords]
+    base = {n: o[0] for n, o in coords}
+    add(make(base))
+    for lv in range(1, level + 1):
+        for idxs in itertools.combinations(range(len(coords)), lv):
+            for vals in itertools.product(*[coords[i][1][1:] for i in idxs]):
+                cfg = dict(base)
+                for i, v in zip(idxs, vals):
+                    cfg[names[i]] = v
+                add(make(cfg))
+    return base
+
+
+def _enumerate_scalar(tier, add):
+    for centre in CENTRES:
+        coords = _coords(tier, centre)
+        base = _deviations(coords, 2, add, concretise)
+        # full product of the condition coordinates (and class, TS) at the centre body
+        small = ['cls', 'TS', 'T', 'Pr', 'zpe', 'blk'] + (['st'] if tier != 'quick' else [])
+        opts = [PRODUCT_OPTS.get(n, dict(coords)[n]) for n in small]
+        for vals in itertools.product(*opts):
+            cfg = dict(base)
+            cfg.update(dict(zip(small, vals)))
+            add(concretise(cfg))
+
+
+# ---- vector family
+def _vec_sides(tier):
+    singles = [[k] for k in EMP_POOL]
+    doubles = [[k, k] for k in EMP_POOL]
+    pairs = [list(p) for p in itertools.combinations(EMP_POOL, 2)]
+    for i, p in enumerate(pairs):
+        if i % 2:
+            p.reverse()
+    out = singles + doubles + pairs
+    if tier != 'quick':
+        out += [list(p) for p in itertools.combinations(EMP_POOL, 3)] + [list(EMP_POOL)]
+    return out
+
+
+VEC_CENTRES = [
+    dict(name='vec-nasa', cls=0, R=['XSG'], P=['NS'], TS=1, product=True),
+    dict(name='vec-mixed-bep', cls=2, R=['SH', 'N9'], P=['XSG'], TS=2, product=False),
+]
+
+
+def _vec_coords(tier, centre):
+    sides = _vec_sides(tier)
+    rs = [centre['R']] + [s for s in sides if s != centre['R']]
+    ps = [centre['P']] + [s for s in sides if s != centre['P']]
+    tso = [VEC_TS[centre['TS']]] + [t for i, t in enumerate(VEC_TS) if i != centre['TS']]
+    cls = [CLASSES[centre['cls']]] + [c for i, c in enumerate(CLASSES) if i != centre['cls']]
+    return [('cls', cls), ('R', rs), ('P', ps), ('TS', tso), ('st', list(range(2, 9))),
+            ('shape', list(range(len(VEC_SHAPES)))), ('pat', list(range(NVPAT))), ('Pr', PRESS),
+            ('T', TEMPS)]
+
+
+def _enumerate_vector(tier, add):
+    for centre in VEC_CENTRES:
+        coords = _vec_coords(tier, centre)
+        base = _deviations(coords, 2, add, concretise_vec)
+        if centre['product'] or tier != 'quick':
+            small = ['cls', 'TS', 'shape', 'pat', 'Pr']
+            opts = [dict(coords)[n] for n in small]
+            for vals in itertools.product(*opts):
+                cfg = dict(base)
+                cfg.update(dict(zip(small, vals)))
+                add(concretise_vec(cfg))
+
+
+# ---- history family
+def _hist_sequences(tier):
+    tp = list(range(len(HIST_TP)))
+    pairs = [[a, b] for a in tp for b in tp if a != b]
+    aba = [[a, b, a] for a, b in pairs]
+    if tier == 'quick':
+        aba = [s for i, s in enumerate(aba) if i % 3 == 0]
+    # the first sequence (centre) changes T and comes back
+    first = [0, 1, 0]
+    out = [first] + [s for s in pairs + aba if s != first]
+    if tier != 'quick':
+        out += [[a, b, c] for a in tp for b in tp for c in tp if len({a, b, c}) == 3]
+    return out
+
+
+def _hist_coords(tier, k):
+    return [('rxn', [k]), ('blk', HIST_BLK), ('seq', _hist_sequences(tier)), ('bedit', [False, True]),
+            ('reuse', HIST_REUSE), ('route', HIST_ROUTE), ('edit', [False, True]), ('other', [False, True])]
+
+
+def _enumerate_history(tier, add):
+    for k in range(len(HIST_RXN)):
+        _deviations(_hist_coords(tier, k), 2 if tier == 'quick' else 3, add, concretise_hist)
+
+
+_ENUM_CACHE = {}
 
 
 def _enumerate(tier):
-    """All abstract configurations (list of dicts), deterministic, de-duplicated."""
+    """All concrete cases (list of dicts), deterministic, de-duplicated."""
+    if tier in _ENUM_CACHE:
+        return _ENUM_CACHE[tier]
     out, seen = [], set()
 
-    def add(cfg):
-        case = concretise(cfg)
+    def add(case):
         key = core.dumps(case)
         if key not in seen:
             seen.add(key)
             out.append(case)
 
-    for centre in CENTRES:
-        coords = _coords(tier, centre)
-        names = [n for n, _ in coords]
-        base = {n: o[0] for n, o in coords}
-        add(base)
-        for level in (1, 2):
-            for idxs in itertools.combinations(range(len(coords)), level):
-                for vals in itertools.product(*[coords[i][1][1:] for i in idxs]):
-                    cfg = dict(base)
-                    for i, v in zip(idxs, vals):
-                        cfg[names[i]] = v
-                    add(cfg)
-        # full product of the condition coordinates (and class, TS) at the centre body
-        small = ['cls', 'TS', 'T', 'Pr', 'zpe', 'blk'] + (['st'] if tier != 'quick' else [])
-        opts = [dict(coords)[n] for n in small]
-        for vals in itertools.product(*opts):
-            cfg = dict(base)
-            cfg.update(dict(zip(small, vals)))
-            add(cfg)
+    _enumerate_scalar(tier, add)
+    _enumerate_vector(tier, add)
+    _enumerate_history(tier, add)
+    _ENUM_CACHE[tier] = out
     return out
 
 
-def concretise(cfg):
-    """Abstract configuration -> concrete, JSON-able case."""
+def _intify(x):
+    return int(x) if isinstance(x, float) and x == int(x) else x
+
+
+def _side_maker(st, integer=False):
     pos = [0]
 
     def side(keys):
         res = []
         for k in keys:
-            res.append([k, R.COEFFS[(cfg['st'] + 3 * pos[0]) % 7]])
+            nu = R.COEFFS[(st + 3 * pos[0]) % 7]
+            res.append([k, _intify(nu) if integer else nu])
             pos[0] += 1
         return res
-    Rs, Ps = side(cfg['R']), side(cfg['P'])
-    TS = side(cfg['TS']) if cfg['TS'] else None
-    kw = {'T': cfg['T']}
-    if cfg['Pr'] is not None:
-        kw['P'] = cfg['Pr']
-    if cfg['zpe'] is not None:
-        kw['include_ZPE'] = cfg['zpe']
-    r0, rl, p0, pl = Rs[0][0], Rs[-1][0], Ps[0][0], Ps[-1][0]
-    b = cfg['blk']
+    return side
+
+
+def _blocks(kw, b, Rs, Ps, TS):
+    r0, rl, pl = Rs[0][0], Rs[-1][0], Ps[-1][0]
     if b == 1:
         kw['%s_kwargs' % r0] = {'T': 500.0}
     elif b == 2:
@@ -175,20 +327,107 @@ def concretise(cfg):
         for i, k in enumerate(names):
             kw['%s_kwargs' % k] = {'T': 400.0 + 75.0 * i} if i % 2 == 0 else {'T': 400.0 + 75.0 * i, 'P': 0.5}
         kw['%s_kwargs' % rl] = {}
+    elif b == 7:
+        # an option given through the per-species route instead of directly
+        kw['%s_kwargs' % r0] = {'include_ZPE': True}
+        kw['%s_kwargs' % pl] = dict(kw.get('%s_kwargs' % pl, {}), include_ZPE=False, T=700.0)
+    return kw
+
+
+def concretise(cfg):
+    """Abstract configuration -> concrete, JSON-able case."""
+    integer = cfg.get('num') == 'int'
+    side = _side_maker(cfg['st'], integer)
+    Rs, Ps = side(cfg['R']), side(cfg['P'])
+    TS = side(cfg['TS']) if cfg['TS'] else None
+    kw = {'T': cfg['T']}
+    if cfg['Pr'] is not None:
+        kw['P'] = cfg['Pr']
+    if cfg['zpe'] is not None:
+        kw['include_ZPE'] = cfg['zpe']
+    _blocks(kw, cfg['blk'], Rs, Ps, TS)
+    if integer:
+        kw = {k: ({kk: (_intify(vv) if kk == 'T' else vv) for kk, vv in v.items()} if isinstance(v, dict)
+                  else (_intify(v) if k == 'T' else v)) for k, v in kw.items()}
     return dict(cls=cfg['cls'], R=Rs, P=Ps, TS=TS, kw=kw)
+
+
+def _vec(values, dtype):
+    return {VEC: list(values), 'dtype': dtype}
+
+
+def concretise_vec(cfg):
+    side = _side_maker(cfg['st'])
+    Rs, Ps = side(cfg['R']), side(cfg['P'])
+    TS = side(cfg['TS']) if cfg['TS'] else None
+    values, dtype = VEC_SHAPES[cfg['shape']]
+    cast = int if dtype == 'int' else float
+    v1 = _vec(values, dtype)
+    # a second vector of the same length with other values (reversed order, shifted)
+    v2 = _vec([cast(x + 50) for x in reversed(values)], dtype)
+    r0, pl = Rs[0][0], Ps[-1][0]
+    pat = cfg['pat']
+    kw = {'T': v1}
+    if pat == 1:            # vector for everybody, one species at its own scalar T
+        kw['%s_kwargs' % r0] = {'T': 500.0}
+    elif pat == 2:          # scalar for everybody, one species at a vector
+        kw = {'T': cfg['T'], '%s_kwargs' % r0: {'T': v1}}
+    elif pat == 3:          # vector for everybody, another vector for one species
+        kw['%s_kwargs' % pl] = {'T': v2}
+    elif pat == 4:          # a block of an absent species carrying a vector of another length
+        kw['ZZ_kwargs'] = {'T': _vec([1000.0, 1100.0, 1200.0, 1300.0], 'float')}
+    elif pat == 5:          # the transition state (else the first reactant) at another vector, an empty block
+        kw['%s_kwargs' % pl] = {}
+        kw['%s_kwargs' % (TS[0][0] if TS else r0)] = {'T': v2}
+    if cfg['Pr'] is not None:
+        kw['P'] = cfg['Pr']
+    return dict(cls=cfg['cls'], R=Rs, P=Ps, TS=TS, kw=kw)
+
+
+def concretise_hist(cfg):
+    body = HIST_RXN[cfg['rxn']]
+    side = _side_maker(body['st'])
+    Rs, Ps = side(body['R']), side(body['P'])
+    TS = side(body['TS']) if body['TS'] else None
+    conds = []
+    for j, i in enumerate(cfg['seq']):
+        T, P = HIST_TP[i]
+        kw = {'T': T}
+        if P is not None:
+            kw['P'] = P
+        _blocks(kw, cfg['blk'], Rs, Ps, TS)
+        if cfg['bedit'] and j % 2 == 1:
+            # the caller edits an entry of a nested block between two calls
+            for k in sorted(kw):
+                if k.endswith('_kwargs') and 'T' in kw[k]:
+                    kw[k]['T'] = kw[k]['T'] + 150.0
+                    break
+        conds.append(kw)
+    return dict(kind='history', cls=body['cls'], R=Rs, P=Ps, TS=TS, conds=conds, reuse=cfg['reuse'],
+                route=cfg['route'], edit=bool(cfg['edit']), other=bool(cfg['other']))
 
 
 N_SHARDS = {'quick': 32, 'thorough': 64}
 
 
 def bounds(tier):
-    n = len(_enumerate(tier))
+    cases = _enumerate(tier)
+    nh = sum(1 for c in cases if c.get('kind') == 'history')
+    nv = sum(1 for c in cases if _has_vec(c))
     return dict(side_species=R.SIDE_POOL, ts_options=TS_Q if tier == 'quick' else TS_T,
                 sides_per_centre=len(_sides(tier, ['SG'])), coefficients=R.COEFFS,
-                classes=CLASSES, T=TEMPS, P=PRESS, include_ZPE=ZPE, block_patterns=NBLK,
+                classes=CLASSES, T=TEMPS, P=PRESS, include_ZPE=ZPE, block_patterns=NBLK, number_types=NUM,
                 centres=[c['name'] for c in CENTRES], deviation_level=2,
                 full_product='cls x TS x T x P x include_ZPE x blocks' + ('' if tier == 'quick' else ' x stoichiometry offset'),
-                configurations=n)
+                vector_species=EMP_POOL, vector_ts_options=VEC_TS,
+                vector_shapes=[dict(values=v, dtype=d) for v, d in VEC_SHAPES],
+                vector_placements=NVPAT, vector_sides=len(_vec_sides(tier)),
+                vector_centres=[c['name'] for c in VEC_CENTRES],
+                history_reactions=len(HIST_RXN), history_TP=HIST_TP, history_sequences=len(_hist_sequences(tier)),
+                history_block_patterns=HIST_BLK, history_reuse=HIST_REUSE, history_routes=HIST_ROUTE,
+                history_deviation_level=2 if tier == 'quick' else 3, history_getters=HIST_QUANT,
+                configurations=len(cases), scalar_configurations=len(cases) - nh - nv,
+                vector_configurations=nv, histories=nh)
 
 
 def shards(tier):
@@ -196,9 +435,73 @@ def shards(tier):
     return [dict(tier=tier, k=k, n=n) for k in range(n)]
 
 
+# ------------------------------------------------------------------ vector conditions
+def _is_vec(v):
+    return isinstance(v, dict) and VEC in v
+
+
+def _veclen(kw):
+    """Length of the vector conditions addressed to species of the call (None: all scalar)."""
+    n = None
+    for k, v in kw.items():
+        if k == 'ZZ_kwargs':
+            continue                                    # absent species: any length
+        for x in (v.values() if isinstance(v, dict) and not _is_vec(v) else [v]):
+            if _is_vec(x):
+                m = len(x[VEC])
+                if n is not None and m != n:
+                    raise ValueError('inconsistent vector lengths in case')
+                n = m
+    return n
+
+
+def _materialise(kw):
+    """JSON-able keyword dictionary -> the dictionary really passed (vectors become numpy arrays)."""
+    out = {}
+    for k, v in kw.items():
+        if _is_vec(v):
+            out[k] = np.array(v[VEC], dtype=(np.int64 if v.get('dtype') == 'int' else np.float64))
+        elif isinstance(v, dict):
+            out[k] = _materialise(v)
+        else:
+            out[k] = v
+    return out
+
+
+def _refnum(x):
+    return float(x) if isinstance(x, int) and not isinstance(x, bool) else x
+
+
+def _slice(kw, i):
+    """Reference conditions of element i (None: the scalar call): plain floats everywhere."""
+    out = {}
+    for k, v in kw.items():
+        if k == 'ZZ_kwargs':
+            out[k] = {}                                 # nobody is called ZZ
+        elif _is_vec(v):
+            out[k] = float(v[VEC][i])
+        elif isinstance(v, dict):
+            out[k] = _slice(v, i)
+        else:
+            out[k] = _refnum(v)
+    return out
+
+
+def _canon(o):
+    """Type-preserving canonical form of a keyword dictionary (arrays with dtype, int vs float)."""
+    if isinstance(o, np.ndarray):
+        return {'ndarray': o.tolist(), 'dtype': str(o.dtype), 'shape': list(o.shape)}
+    if isinstance(o, dict):
+        return {k: _canon(v) for k, v in o.items()}
+    if isinstance(o, (list, tuple)):
+        return [type(o).__name__] + [_canon(v) for v in o]
+    if isinstance(o, (int, np.integer)) and not isinstance(o, (bool, np.bool_)):
+        return {'int': int(o)}
+    return o
+
+
 # ------------------------------------------------------------------ building the real objects
-def build(case):
-    """Returns (reaction, {state: [(species_obj, key, nu)]}) or (None, reason)."""
+def build_states(case):
     surface = case['cls'] == 'SurfaceReaction'
     objs = {}
 
@@ -206,9 +509,24 @@ def build(case):
         if key not in objs:
             objs[key] = R.build_species(key, surface_bep=surface)
         return objs[key]
-    states = {'reactants': [(get(k), k, nu) for k, nu in case['R']],
-              'products': [(get(k), k, nu) for k, nu in case['P']],
-              'ts': [(get(k), k, nu) for k, nu in case['TS']] if case['TS'] else None}
+    return {'reactants': [(get(k), k, nu) for k, nu in case['R']],
+            'products': [(get(k), k, nu) for k, nu in case['P']],
+            'ts': [(get(k), k, nu) for k, nu in case['TS']] if case['TS'] else None}
+
+
+def _reaction_class(name):
+    if name == 'Reaction':
+        from pmutt.reaction import Reaction as cls
+    elif name == 'ChemkinReaction':
+        from pmutt.reaction import ChemkinReaction as cls
+    else:
+        from pmutt.omkm.reaction import SurfaceReaction as cls
+    return cls
+
+
+def make_reaction(cls_name, states, keys_RP):
+    """The reaction of class cls_name on the species objects of states; None when ChemkinReaction
+    refuses a StatMech species."""
     kwargs = dict(reactants=[s for s, _, _ in states['reactants']],
                   reactants_stoich=[nu for _, _, nu in states['reactants']],
                   products=[s for s, _, _ in states['products']],
@@ -216,20 +534,25 @@ def build(case):
     if states['ts']:
         kwargs.update(transition_state=[s for s, _, _ in states['ts']],
                       transition_state_stoich=[nu for _, _, nu in states['ts']])
-    if case['cls'] == 'Reaction':
-        from pmutt.reaction import Reaction as cls
-    elif case['cls'] == 'ChemkinReaction':
-        from pmutt.reaction import ChemkinReaction as cls
+    cls = _reaction_class(cls_name)
+    if cls_name == 'ChemkinReaction':
         # ChemkinReaction classifies itself from species.phase at construction; StatMech species have none
         try:
-            return cls(**kwargs), states
+            return cls(**kwargs)
         except AttributeError as e:
-            if "no attribute 'phase'" in str(e) and any(k in R.STATMECH_KEYS for k, _ in case['R'] + case['P']):
-                return None, 'chemkin-needs-phase'
+            if "no attribute 'phase'" in str(e) and any(k in R.STATMECH_KEYS for k in keys_RP):
+                return None
             raise
-    else:
-        from pmutt.omkm.reaction import SurfaceReaction as cls
-    return cls(**kwargs), states
+    return cls(**kwargs)
+
+
+def build(case):
+    """Returns (reaction, {state: [(species_obj, key, nu)]}) or (None, reason)."""
+    states = build_states(case)
+    rxn = make_reaction(case['cls'], states, [k for k, _ in case['R'] + case['P']])
+    if rxn is None:
+        return None, 'chemkin-needs-phase'
+    return rxn, states
 
 
 BEP_NEEDS = {'UoRT': ['UoRT'], 'HoRT': ['HoRT'], 'SoR': ['SoR'], 'FoRT': ['UoRT', 'SoR'],
@@ -325,8 +648,24 @@ def _call(ctx, sig, case, fn, *a, **kw):
 
 
 def _scalar(v):
-    a = np.asarray(v, dtype=float)
-    return float(a.ravel()[0]) if a.size == 1 else a
+    """The returned value as float / float array (a copy).  A returned array is then overwritten in
+    place: results must be fresh objects, so this may not change what any later call reports."""
+    a = np.array(v, dtype=float)
+    out = float(a.ravel()[0]) if a.size == 1 else a
+    if isinstance(v, np.ndarray) and v.ndim > 0 and v.flags.writeable:
+        v[...] = SCRIBBLE
+    return out
+
+
+def _log(x):
+    a = np.asarray(x, dtype=float)
+    with np.errstate(all='ignore'):
+        out = np.where(a > 0, np.log(np.where(a > 0, a, 1.0)), np.nan)
+    return float(out) if out.ndim == 0 else out
+
+
+def _jl(x):
+    return np.asarray(x).tolist() if isinstance(x, np.ndarray) else x
 
 
 def _tags(case, ctx):
@@ -341,10 +680,23 @@ def _tags(case, ctx):
             ctx.tag('ts:bep')
         if any(not k.startswith('BEP') for k, _ in ts):
             ctx.tag('ts:explicit')
-    kw = case['kw']
-    blocks = [k[:-7] for k in kw if k.endswith('_kwargs')]
     rk, pk = [k for k, _ in case['R']], [k for k, _ in case['P']]
     tk = [k for k, _ in (ts or [])]
+    if len(set(rk)) < len(rk) or len(set(pk)) < len(pk):
+        ctx.tag('side:repeated-species')
+    if set(rk) & set(pk):
+        ctx.tag('side:species-on-both-sides')
+    coeffs = [nu for _, nu in case['R'] + case['P'] + (ts or [])]
+    if any(nu != int(nu) for nu in coeffs):
+        ctx.tag('stoich:fractional')
+    if any(isinstance(nu, int) for nu in coeffs):
+        ctx.tag('num:int-coefficient')
+    for kw in ([case['kw']] if 'kw' in case else case['conds']):
+        _tags_kw(kw, rk, pk, tk, ctx)
+
+
+def _tags_kw(kw, rk, pk, tk, ctx):
+    blocks = [k[:-7] for k in kw if k.endswith('_kwargs')]
     if not blocks:
         ctx.tag('blk:none')
     if len(blocks) > 1:
@@ -358,67 +710,123 @@ def _tags(case, ctx):
             ctx.tag('blk:ts')
         if b not in rk + pk + tk:
             ctx.tag('blk:absent')
-    if len(set(rk)) < len(rk) or len(set(pk)) < len(pk):
-        ctx.tag('side:repeated-species')
-    if set(rk) & set(pk):
-        ctx.tag('side:species-on-both-sides')
+        if 'include_ZPE' in kw[b + '_kwargs']:
+            ctx.tag('blk:option-through-block')
     if 'P' in kw:
         ctx.tag('P:explicit')
     if 'include_ZPE' in kw:
         ctx.tag('zpe:explicit')
-    if any(nu != int(nu) for _, nu in case['R'] + case['P'] + (ts or [])):
-        ctx.tag('stoich:fractional')
+        if kw['include_ZPE'] is False:
+            ctx.tag('zpe:explicit-false')
+    if isinstance(kw.get('T'), int):
+        ctx.tag('num:int-T')
+    # vector conditions
+    vg = _is_vec(kw.get('T'))
+    vb = [b for b in blocks if b != 'ZZ' and _is_vec(kw[b + '_kwargs'].get('T'))]
+    if vg:
+        ctx.tag('vec:global-T')
+    if vb:
+        ctx.tag('vec:block-T')
+    if vg and vb:
+        ctx.tag('vec:global-and-block')
+    if 'ZZ' in blocks and _is_vec(kw['ZZ_kwargs'].get('T')):
+        ctx.tag('vec:absent-block')
+    for v in [kw.get('T')] + [kw[b + '_kwargs'].get('T') for b in vb]:
+        if _is_vec(v):
+            if v.get('dtype') == 'int':
+                ctx.tag('vec:int-dtype')
+            if len(v[VEC]) == 1:
+                ctx.tag('vec:length-1')
+            if len(v[VEC]) > 2 and list(v[VEC]) != sorted(set(v[VEC])):
+                ctx.tag('vec:unsorted-repeated')
+            if any(k.startswith('BEP') for k in tk):
+                ctx.tag('vec:bep')
+
+
+def _has_vec(case):
+    return 'kw' in case and _veclen(case['kw']) is not None
 
 
 def _nontrivial(case):
+    if case.get('kind') == 'history':
+        return True
     kw = case['kw']
     return bool(any(k.endswith('_kwargs') for k in kw) or len(case['R']) > 1 or len(case['P']) > 1
-                or (case['TS'] and len(case['TS']) > 1))
+                or (case['TS'] and len(case['TS']) > 1) or _has_vec(case))
 
 
 def _base_sig(case):
     ts = case['TS']
     kind = 'none' if not ts else ('bep' if any(k.startswith('BEP') for k, _ in ts) else 'explicit')
-    blk = 'some' if any(k.endswith('_kwargs') for k in case['kw']) else 'none'
-    return {'cls': case['cls'], 'ts': kind, 'blk': blk}
+    kws = [case['kw']] if 'kw' in case else case['conds']
+    blk = 'some' if any(k.endswith('_kwargs') for kw in kws for k in kw) else 'none'
+    sig = {'cls': case['cls'], 'ts': kind, 'blk': blk}
+    if case.get('kind') == 'history':
+        sig['family'] = 'history'
+        sig['route'] = case['route']
+    elif _has_vec(case):
+        sig['T'] = 'array'
+    return sig
 
 
-def check_case(case, ctx):
-    """All clauses of C08 on one configuration."""
-    sig0 = _base_sig(case)
-    rxn, states = build(case)
-    ctx.trace()
-    if rxn is None:
-        ctx.refuse('ChemkinReaction: StatMech species have no .phase')
-        ctx.tag('refused:chemkin-needs-phase')
-        return
-    _tags(case, ctx)
-    kw = case['kw']
-    kw_before = copy.deepcopy(kw)
-    clamped_cls = case['cls'] != 'Reaction'
+# ------------------------------------------------------------------ the clauses on one call set
+def _clauses(ctx, case, sig0, rxn, states, vals, kw, kws, n, quants, clamped_cls, locality=True):
+    """All clauses of C08 for one reaction object and one keyword dictionary.
+
+    kw      the dictionary passed to the getters (may hold numpy arrays);
+    kws     the reference conditions: one all-scalar dictionary per element (a single one when n is None);
+    n       number of elements of the vector conditions, None for a scalar call;
+    states  the species the reference evaluates (the reaction's own, or those of a twin);
+    vals    reference values (species getters of `states`, evaluated at scalars only)."""
+    canon_before = _canon(copy.deepcopy(kw))
 
     def unmodified(sig):
-        ctx.equal('caller keyword dictionaries (nested blocks included) unmodified', kw, kw_before, sig, case)
+        ctx.equal('caller keyword dictionaries (nested blocks included) unmodified', _canon(kw), canon_before,
+                  sig, case)
 
-    vals = Values(rxn, states, ctx)
+    def stack(xs):
+        return xs[0] if n is None else np.array(xs, dtype=float)
 
-    def terms(quant, sname, kwx):
-        return vals.terms(sname, quant, kwx)
+    def one():
+        return 1.0 if n is None else np.ones(n)
 
-    for quant in R.QUANT:
+    class _C:
+        """ctx with the element-wise reading of a vector call: the value returned for n conditions is
+        n numbers, or one number standing for all of them (numpy broadcasting: a state none of whose
+        species gets the vector, a constant such as a BEP's q = 1)."""
+        @staticmethod
+        def close(clause, obs, exp, sig, case, **k):
+            if n is not None and n > 1 and {np.size(obs), np.size(exp)} == {1, n}:
+                obs, exp = np.broadcast_to(np.ravel(obs), (n,)), np.broadcast_to(np.ravel(exp), (n,))
+            return ctx.close(clause, obs, exp, sig, case, **k)
+    ctv = _C
+
+    def terms(quant, sname, xform=None):
+        """per element: [(nu, X_i)]; None when the state does not support the quantity"""
+        out = []
+        for k in kws:
+            t = vals.terms(sname, quant, xform(k) if xform else k)
+            if t is None:
+                return None
+            out.append(t)
+        return out
+
+    def zpe_default(k):
+        k = dict(k)
+        k.setdefault('include_ZPE', False)
+        return k
+
+    for quant in quants:
         kwq = kw
-        kwx = kw                       # keywords the reference sees
-        if quant == 'EoRT':
-            # get_EoRT_state names include_ZPE (default False) and forwards it globally
-            kwx = dict(kw)
-            kwx.setdefault('include_ZPE', False)
+        # get_EoRT_state names include_ZPE (default False) and forwards it globally
+        xform = zpe_default if quant == 'EoRT' else None
         ref, mag, sup = {}, {}, {}
         for s in ('reactants', 'products', 'ts'):
-            t = terms(quant, s, kwx)
+            t = terms(quant, s, xform)
             sup[s] = t is not None
             if sup[s]:
-                ref[s] = R.combine(t, quant)
-                mag[s] = R.magnitude(t) if quant != 'q' else abs(ref[s])
+                ref[s] = stack([R.combine(ti, quant) for ti in t])
+                mag[s] = stack([R.magnitude(ti) for ti in t]) if quant != 'q' else abs(ref[s])
         if not any(sup.values()):
             continue
         ctx.tag('getter:' + quant)
@@ -434,7 +842,7 @@ def check_case(case, ctx):
             sig = dict(sig0, getter=name_state, state=s)
             try:
                 v = _scalar(_call(ctx, sig, case, getattr(rxn, name_state), state=STATE_ARG[s], **kwq))
-                ctx.close('state quantity = sum nu_i X_i over the state (product of powers for q)',
+                ctv.close('state quantity = sum nu_i X_i over the state (product of powers for q)',
                           v, ref[s], sig, case, rtol=1e-10, atol=(0.0 if quant == 'q' else 1e-10),
                           scale=mag[s] + (0.0 if quant == 'q' else 1.0))
                 got_state[s] = v
@@ -462,30 +870,31 @@ def check_case(case, ctx):
                 got[(rev, act)] = v
                 if quant == 'q':
                     exp = ref[fin] / ref[ini]
-                    ctx.close('delta = final - initial (ratio for q), by Hess from the species getters',
-                              math.log(v) if v > 0 else float('nan'), math.log(exp), sig, case,
-                              rtol=1e-10, atol=1e-10, scale=abs(math.log(ref[fin])) + abs(math.log(ref[ini])) + 1.0)
+                    ctv.close('delta = final - initial (ratio for q), by Hess from the species getters',
+                              _log(v), _log(exp), sig, case, rtol=1e-10, atol=1e-10,
+                              scale=abs(_log(ref[fin])) + abs(_log(ref[ini])) + 1.0)
                 else:
                     exp = ref[fin] - ref[ini]
-                    ctx.close('delta = final - initial (ratio for q), by Hess from the species getters',
+                    ctv.close('delta = final - initial (ratio for q), by Hess from the species getters',
                               v, exp, sig, case, rtol=1e-10, atol=1e-10, scale=mag[fin] + mag[ini] + 1.0)
         sc = sum(mag.values()) + 1.0
         if (False, False) in got and (True, False) in got:
             sig = dict(sig0, getter=name_delta, law='reversal')
             if quant == 'q':
-                ctx.close('reversing the direction flips the sign (inverts the ratio for q)',
-                          got[(False, False)] * got[(True, False)], 1.0, sig, case, rtol=1e-9, atol=0.0)
+                ctv.close('reversing the direction flips the sign (inverts the ratio for q)',
+                          got[(False, False)] * got[(True, False)], one(),
+                          sig, case, rtol=1e-9, atol=0.0)
             else:
-                ctx.close('reversing the direction flips the sign (inverts the ratio for q)',
+                ctv.close('reversing the direction flips the sign (inverts the ratio for q)',
                           got[(True, False)], -got[(False, False)], sig, case, rtol=1e-10, atol=1e-10, scale=sc)
         if (False, True) in got and (True, True) in got and (False, False) in got:
             sig = dict(sig0, getter=name_delta, law='detailed-balance')
             if quant == 'q':
-                ctx.close('forward minus reverse activation quantity = reaction change (ratio for q)',
-                          got[(False, True)] / got[(True, True)] / got[(False, False)], 1.0, sig, case,
-                          rtol=1e-9, atol=0.0)
+                ctv.close('forward minus reverse activation quantity = reaction change (ratio for q)',
+                          got[(False, True)] / got[(True, True)] / got[(False, False)],
+                          one(), sig, case, rtol=1e-9, atol=0.0)
             else:
-                ctx.close('forward minus reverse activation quantity = reaction change (ratio for q)',
+                ctv.close('forward minus reverse activation quantity = reaction change (ratio for q)',
                           got[(False, True)] - got[(True, True)], got[(False, False)], sig, case,
                           rtol=1e-10, atol=1e-10, scale=sc)
 
@@ -503,17 +912,16 @@ def check_case(case, ctx):
                 unmodified(sig)
                 if quant == 'q':
                     # get_q_act names include_ZPE (default False) and forwards it globally
-                    kz = dict(kw)
-                    kz.setdefault('include_ZPE', False)
-                    tf, ti = terms('q', 'ts', kz), terms('q', ini, kz)
+                    tf, ti = terms('q', 'ts', zpe_default), terms('q', ini, zpe_default)
                     if tf is None or ti is None:
                         continue
-                    lf, li = math.log(R.combine(tf, 'q')), math.log(R.combine(ti, 'q'))
-                    ctx.close('activation quantity = transition state - initial state of that direction',
-                              math.log(v) if v > 0 else float('nan'), lf - li, sig, case, rtol=1e-10,
+                    lf = _log(stack([R.combine(t, 'q') for t in tf]))
+                    li = _log(stack([R.combine(t, 'q') for t in ti]))
+                    ctv.close('activation quantity = transition state - initial state of that direction',
+                              _log(v), lf - li, sig, case, rtol=1e-10,
                               atol=1e-10, scale=abs(lf) + abs(li) + 1.0)
                 else:
-                    ctx.close('activation quantity = transition state - initial state of that direction',
+                    ctv.close('activation quantity = transition state - initial state of that direction',
                               v, ref['ts'] - ref[ini], sig, case, rtol=1e-10, atol=1e-10,
                               scale=mag['ts'] + mag[ini] + 1.0)
 
@@ -522,7 +930,10 @@ def check_case(case, ctx):
             short, units, withT = DIM_UNITS[quant]
             from pmutt import constants as c
             T = kw['T']
-            fac = c.R(units + '/K') * T if withT else c.R(units)
+            # the reaction multiplies by the T it is given (a scalar, or one value per element)
+            Tref = np.asarray(T, dtype=float) if isinstance(T, np.ndarray) else T
+            fac = c.R(units + '/K') * Tref if withT else c.R(units)
+            afac = float(np.min(np.abs(fac)))       # = abs(fac) for a scalar
             for rev in (False, True):
                 for act in (False, True):
                     if (rev, act) not in got:
@@ -539,8 +950,8 @@ def check_case(case, ctx):
                     except _Failed:
                         continue
                     ini, fin = _initial_final(rev, act)
-                    ctx.close('dimensional delta = (final - initial) x R[T]', v, (ref[fin] - ref[ini]) * fac,
-                              sig, case, rtol=1e-10, atol=1e-10 * abs(fac), scale=(mag[fin] + mag[ini] + 1.0) * abs(fac))
+                    ctv.close('dimensional delta = (final - initial) x R[T]', v, (ref[fin] - ref[ini]) * fac,
+                              sig, case, rtol=1e-10, atol=1e-10 * afac, scale=(mag[fin] + mag[ini] + 1.0) * abs(fac))
                     # (get_E_act is the Arrhenius activation energy, not an electronic-energy change: C09)
                     if act and quant != 'EoRT' and not (clamped_cls and quant in ('HoRT', 'GoRT')):
                         sig = dict(sig0, getter='get_%s_act' % short, rev=rev, act=True)
@@ -553,8 +964,8 @@ def check_case(case, ctx):
                                                    units=units, rev=rev, **kwd))
                         except _Failed:
                             continue
-                        ctx.close('dimensional activation quantity = (transition state - initial) x R[T]', va,
-                                  (ref['ts'] - ref[ini]) * fac, sig, case, rtol=1e-10, atol=1e-10 * abs(fac),
+                        ctv.close('dimensional activation quantity = (transition state - initial) x R[T]', va,
+                                  (ref['ts'] - ref[ini]) * fac, sig, case, rtol=1e-10, atol=1e-10 * afac,
                                   scale=(mag['ts'] + mag[ini] + 1.0) * abs(fac))
             for s in got_state:
                 sig = dict(sig0, getter='get_%s_state' % short, state=s)
@@ -568,8 +979,8 @@ def check_case(case, ctx):
                                           units=units, **kwd))
                 except _Failed:
                     continue
-                ctx.close('dimensional state quantity = sum nu_i X_i x R[T]', v, ref[s] * fac, sig, case,
-                          rtol=1e-10, atol=1e-10 * abs(fac), scale=(mag[s] + 1.0) * abs(fac))
+                ctv.close('dimensional state quantity = sum nu_i X_i x R[T]', v, ref[s] * fac, sig, case,
+                          rtol=1e-10, atol=1e-10 * afac, scale=(mag[s] + 1.0) * abs(fac))
             unmodified(dict(sig0, getter='get_delta_' + short))
 
         # ---- equilibrium constant
@@ -582,7 +993,7 @@ def check_case(case, ctx):
                     ini, fin = _initial_final(rev, act)
                     dG = ref[fin] - ref[ini]
                     sig = dict(sig0, getter='get_Keq', rev=rev, act=act)
-                    if abs(dG) > 650.0:
+                    if np.any(abs(dG) > 650.0):
                         ctx.refuse('Keq beyond the double range (|dG/RT| > 650)')
                         continue
                     try:
@@ -591,28 +1002,33 @@ def check_case(case, ctx):
                         continue
                     ctx.tag('keq:finite')
                     K[(rev, act)] = v
-                    ctx.close('Keq = exp(-deltaG/RT)', math.log(v) if v > 0 else float('nan'), -dG, sig, case,
+                    ctv.close('Keq = exp(-deltaG/RT)', _log(v), -dG, sig, case,
                               rtol=1e-10, atol=1e-10, scale=mag[fin] + mag[ini] + 1.0)
             if (False, False) in K and (True, False) in K:
                 prod = K[(False, False)] * K[(True, False)]
-                ctx.true('K_forward x K_reverse = 1 (within 1e-10 x sum|nu G/RT|)', abs(prod - 1.0) <= 1e-10 * sc,
-                         dict(sig0, getter='get_Keq', law='reversal'), case, prod, 1.0)
+                ctx.true('K_forward x K_reverse = 1 (within 1e-10 x sum|nu G/RT|)',
+                         np.size(prod) in (1, np.size(sc)) and bool(np.all(abs(prod - 1.0) <= 1e-10 * sc)),
+                         dict(sig0, getter='get_Keq', law='reversal'), case, _jl(prod), 1.0)
             if (False, True) in K and (True, True) in K and (False, False) in K:
                 ratio = K[(False, True)] / K[(True, True)] / K[(False, False)]
                 ctx.true('K_act,forward / K_act,reverse = K_forward (within 1e-10 x sum|nu G/RT|)',
-                         abs(ratio - 1.0) <= 1e-10 * sc, dict(sig0, getter='get_Keq', law='detailed-balance'),
-                         case, ratio, 1.0)
+                         np.size(ratio) in (1, np.size(sc)) and bool(np.all(abs(ratio - 1.0) <= 1e-10 * sc)),
+                         dict(sig0, getter='get_Keq', law='detailed-balance'), case, _jl(ratio), 1.0)
             unmodified(dict(sig0, getter='get_Keq'))
 
     # ---- a block addressed to one species changes only that species' contribution
     blocks = [k for k in kw if k.endswith('_kwargs')]
-    if blocks:
+    if blocks and locality:
         kw_plain = {k: v for k, v in kw.items() if not k.endswith('_kwargs')}
+        kws_plain = [{k: v for k, v in ki.items() if not k.endswith('_kwargs')} for ki in kws]
         for quant in ('HoRT', 'SoR', 'GoRT', 'CpoR'):
+            if quant not in quants:
+                continue
             for s in ('reactants', 'products', 'ts'):
                 if states[s] is None or any(k.startswith('BEP') for _, k, _ in states[s]):
                     continue            # a BEP's own value is defined through the reaction; covered above
-                if vals.terms(s, quant, kw) is None or vals.terms(s, quant, kw_plain) is None:
+                if any(vals.terms(s, quant, ki) is None or vals.terms(s, quant, kp) is None
+                       for ki, kp in zip(kws, kws_plain)):
                     continue
                 sig = dict(sig0, getter='get_%s_state' % quant, state=s, law='block-locality')
                 try:
@@ -622,20 +1038,191 @@ def check_case(case, ctx):
                                             state=STATE_ARG[s], **kw_plain))
                 except _Failed:
                     continue
-                exp, m = 0.0, 1.0
-                for sp, key, nu in states[s]:
-                    blk = kw.get('%s_kwargs' % sp.name)
-                    if not blk:
-                        continue
-                    eff_new = dict(kw_plain)
-                    eff_new.update(blk)
-                    new = _scalar(R.call_getter(getattr(sp, 'get_' + quant), eff_new))
-                    old = _scalar(R.call_getter(getattr(sp, 'get_' + quant), dict(kw_plain)))
-                    exp += nu * (new - old)
-                    m += abs(nu * new) + abs(nu * old)
-                ctx.close("a species' block changes the state quantity by nu_s (X_s(new) - X_s(old)) only",
+                exps, ms = [], []
+                for ki, kp in zip(kws, kws_plain):
+                    exp, m = 0.0, 1.0
+                    for sp, key, nu in states[s]:
+                        blk = ki.get('%s_kwargs' % sp.name)
+                        if not blk:
+                            continue
+                        eff_new = dict(kp)
+                        eff_new.update(blk)
+                        new = _scalar(R.call_getter(getattr(sp, 'get_' + quant), eff_new))
+                        old = _scalar(R.call_getter(getattr(sp, 'get_' + quant), dict(kp)))
+                        exp += nu * (new - old)
+                        m += abs(nu * new) + abs(nu * old)
+                    exps.append(exp)
+                    ms.append(m)
+                exp, m = stack(exps), stack(ms)
+                ctv.close("a species' block changes the state quantity by nu_s (X_s(new) - X_s(old)) only",
                           with_b - without, exp, sig, case, rtol=1e-10, atol=1e-10, scale=m)
         unmodified(dict(sig0, getter='get_X_state', law='block-locality'))
+
+
+def check_config(case, ctx):
+    """All clauses of C08 on one configuration (scalar or vector conditions)."""
+    sig0 = _base_sig(case)
+    rxn, states = build(case)
+    ctx.trace()
+    if rxn is None:
+        ctx.refuse('ChemkinReaction: StatMech species have no .phase')
+        ctx.tag('refused:chemkin-needs-phase')
+        return
+    _tags(case, ctx)
+    n = _veclen(case['kw'])
+    if n is not None and any(k in R.STATMECH_KEYS for k, _ in case['R'] + case['P'] + (case['TS'] or [])):
+        raise ValueError('vector conditions are enumerated on empirical species only')
+    kw = _materialise(case['kw'])
+    kws = [_slice(case['kw'], i) for i in (range(n) if n is not None else [None])]
+    if n is not None:
+        ctx.tag('vec:result-scribbled')
+    vals = Values(rxn, states, ctx)
+    _clauses(ctx, case, sig0, rxn, states, vals, kw, kws, n, R.QUANT, case['cls'] != 'Reaction')
+
+
+# ------------------------------------------------------------------ histories
+def _reaction_string(case):
+    def side(terms):
+        return '+'.join('%r%s' % (nu, k) for k, nu in terms)
+    parts = [side(case['R'])] + ([side(case['TS'])] if case['TS'] else []) + [side(case['P'])]
+    return '='.join(parts)
+
+
+def _edit_dict(live, prev, new):
+    """What a caller who keeps one dictionary does between two calls: only the entries whose
+    intended value changes are touched (nested blocks are edited in place)."""
+    for k in list(prev):
+        if k not in new:
+            live.pop(k, None)
+    for k, v in new.items():
+        if isinstance(v, dict) and k in prev and isinstance(live.get(k), dict):
+            blk, pb = live[k], prev[k]
+            for kk in list(pb):
+                if kk not in v:
+                    blk.pop(kk, None)
+            for kk, vv in v.items():
+                if kk not in pb or pb[kk] != vv:
+                    blk[kk] = vv
+        elif k not in prev or prev[k] != v:
+            live[k] = copy.deepcopy(v)
+    return live
+
+
+def _shift(terms, by):
+    return [[k, R.COEFFS[(R.COEFFS.index(float(nu)) + by) % 7]] for k, nu in terms]
+
+
+def _other_case(case):
+    """A second reaction on the same species: the reverse step with other coefficients."""
+    return dict(cls=case['cls'], R=_shift(case['P'], 2), P=_shift(case['R'], 4),
+                TS=_shift(case['TS'], 1) if case['TS'] else None)
+
+
+def _restate(states, case):
+    """states of `case` on the species objects already present in `states` (by key)."""
+    objs = {key: sp for lst in states.values() if lst for sp, key, _ in lst}
+    return {'reactants': [(objs[k], k, nu) for k, nu in case['R']],
+            'products': [(objs[k], k, nu) for k, nu in case['P']],
+            'ts': [(objs[k], k, nu) for k, nu in case['TS']] if case['TS'] else None}
+
+
+def _states_of(rxn, case):
+    """(species object, key, nu) lists with the species objects read from the reaction itself."""
+    def zipped(objs, terms):
+        return [(sp, k, nu) for sp, (k, nu) in zip(objs, terms)]
+    return {'reactants': zipped(rxn.reactants, case['R']), 'products': zipped(rxn.products, case['P']),
+            'ts': zipped(rxn.transition_state, case['TS']) if case['TS'] else None}
+
+
+def check_history(case, ctx):
+    """Several calls on the same reaction object(s); every call is compared with the reference at the
+    conditions of that call, evaluated on a twin built separately from fresh species."""
+    sig0 = _base_sig(case)
+    ctx.trace()
+    _tags(case, ctx)
+    ctx.tag('hist:route:' + case['route'])
+    ctx.tag('hist:shared-blocks' if case['reuse'] == 'shared' else 'hist:fresh-dicts')
+    cls = _reaction_class(case['cls'])
+    keys_RP = [k for k, _ in case['R'] + case['P']]
+
+    # the reference twin (never passed to the code under test except as the BEP's `reaction`)
+    twin_states = build_states(case)
+    twin = make_reaction(case['cls'], twin_states, keys_RP)
+    # the reaction under test, through the chosen construction route
+    states0 = build_states(case)
+    if case['route'] == 'from_string':
+        species = {key: sp for lst in states0.values() if lst for sp, key, _ in lst}
+        rxn = cls.from_string(_reaction_string(case), species)
+    else:
+        rxn0 = make_reaction(case['cls'], states0, keys_RP)
+        if case['route'] == 'init':
+            rxn = rxn0
+        elif case['route'] == 'deepcopy':
+            rxn = copy.deepcopy(rxn0)
+        else:
+            rxn = cls.from_dict(rxn0.to_dict())
+            if any(isinstance(sp, dict) for sp in list(rxn.reactants) + list(rxn.products) +
+                   list(rxn.transition_state or [])):
+                # e.g. pmutt.omkm.reaction.BEP is not in the JSON registry: decoding is C11's business
+                ctx.refuse('from_dict(to_dict()) leaves a species undecoded (serialisation: C11)')
+                return
+        if rxn is not rxn0:
+            # the object it was made from is edited afterwards: the new one must not follow
+            rxn0.reactants_stoich[0] = 3.75
+            rxn0.products_stoich[-1] = 0.125
+            if rxn0.transition_state_stoich:
+                rxn0.transition_state_stoich[0] = 7.5
+    pairs = [(rxn, twin, twin_states, case, 'first')]
+    if case['other']:
+        ctx.tag('hist:two-reactions-share-species')
+        oc = _other_case(case)
+        other = make_reaction(case['cls'], _restate(_states_of(rxn, case), oc), keys_RP)
+        otwin_states = _restate(twin_states, oc)
+        otwin = make_reaction(case['cls'], otwin_states, keys_RP)
+        pairs.append((other, otwin, otwin_states, oc, 'second'))
+
+    clamped = case['cls'] != 'Reaction'
+    live, prev = None, None
+    for i, cond in enumerate(case['conds']):
+        if i == 1 and case['edit']:
+            # coefficients edited after creation (item assignment and rebinding)
+            ctx.tag('hist:coefficients-edited')
+            r, tw, tws, cs, _ = pairs[0]
+            newR = [[k, nu] for k, nu in cs['R']]
+            newR[0][1] = _shift(newR[:1], 3)[0][1]
+            newP = _shift(cs['P'], 5)
+            for obj in (r, tw):
+                obj.reactants_stoich[0] = newR[0][1]
+                obj.products_stoich = [nu for _, nu in newP]
+            cs = dict(cs, R=newR, P=newP)
+            pairs[0] = (r, tw, _restate(tws, cs), cs, 'first')
+        if case['reuse'] == 'shared' and live is not None:
+            live = _edit_dict(live, prev, cond)
+        else:
+            live = copy.deepcopy(cond)
+        if prev is not None:
+            if prev.get('T') != cond.get('T'):
+                ctx.tag('hist:T-changed')
+            if prev.get('P') != cond.get('P'):
+                ctx.tag('hist:P-changed')
+            if case['reuse'] == 'shared' and any(k.endswith('_kwargs') and prev.get(k) != v
+                                                 for k, v in cond.items()):
+                ctx.tag('hist:block-edited-in-place')
+            if i >= 2 and cond == case['conds'][0]:
+                ctx.tag('hist:first-conditions-again')
+        prev = cond
+        ref_cond = _slice(cond, None)
+        for r, tw, tws, cs, which in pairs:
+            sig = dict(sig0, call='first' if i == 0 else 'later', reaction=which)
+            vals = Values(tw, tws, ctx)
+            _clauses(ctx, case, sig, r, tws, vals, live, [ref_cond], None, HIST_QUANT, clamped,
+                     locality=(i > 0))
+
+
+def check_case(case, ctx):
+    if case.get('kind') == 'history':
+        return check_history(case, ctx)
+    return check_config(case, ctx)
 
 
 def run_shard(shard, ctx):
@@ -644,7 +1231,7 @@ def run_shard(shard, ctx):
         if i % shard['n'] != shard['k']:
             continue
         ctx.state(case)
-        ctx.trans()
+        ctx.trans(len(case['conds']) * (2 if case['other'] else 1) if case.get('kind') == 'history' else 1)
         if _nontrivial(case):
             ctx.nontrivial(case)
         if i % 997 == shard['k']:
@@ -654,10 +1241,13 @@ def run_shard(shard, ctx):
 
 LEVEL_TEXT = ('Deviation-bounded exhaustive enumeration of reaction configurations (class x reactant multiset x '
               'product multiset x transition state x coefficients x T x P x include_ZPE x per-species keyword '
-              'blocks) around three centre reactions, complete to 2 deviations, plus the full product of the '
-              'condition coordinates at each centre; every configuration is built and evaluated on the real '
+              'blocks x number type) around three centre reactions, complete to 2 deviations, plus the full product of the '
+              'condition coordinates at each centre; vector-condition configurations (numpy T vectors, globally and '
+              'in species blocks) on empirical reactions, and call histories on one reaction object with a reused '
+              'conditions dictionary; every configuration is built and evaluated on the real '
               'Reaction/ChemkinReaction/SurfaceReaction and compared with the linear reference sum(nu_i X_i).')
 LEVEL_NOTE = ('Species from a 13-member pool (one per model class), coefficients from a 7-point dyadic lattice; '
               'quick uses 28 side multisets per coordinate, thorough 35 plus 3-4 species sides and the coefficient '
-              'offset in the full product.')
+              'offset in the full product; vectors of length 1-5 on 4 empirical species; histories of 2-3 condition '
+              'sets on 6 reactions.')
 TECHNIQUE = 'deviation-bounded product enumeration on the implementation, linear reference-model oracle'
